@@ -6,12 +6,27 @@ from typing import Any, Dict
 from .. import compare as cmp
 from ..core import Outcome, Prop
 from .component import COMPONENT, compare_c04 as _component
+from .c06 import FRAME_ROWS_ALL
 from . import slices
 
 
 def compare(vec: Dict[str, Any], obs: Dict[str, Any]) -> Outcome:
     if vec.get("kind") == "component":
         return _component(vec, obs)
+    if vec.get("kind") == "rows":
+        oc = Outcome()
+        who = "%s DataFrameSchema.validate" % vec["backend"]
+        if obs["kind"] == "ok" and not obs.get("type_ok", True):
+            oc.mismatches.append("%s returned another container kind than it was given" % who)
+        if obs.get("lazyframe_type_ok", True) is not True:
+            oc.mismatches.append("%s on a LazyFrame did not return a LazyFrame (%s)" % (who, obs["lazyframe_type_ok"]))
+        if obs.get("column_type_ok", True) is not True:
+            if obs["column_type_ok"] is False:
+                oc.known = ["PolarsColumnReturnsLazyFrame"]
+            else:
+                oc.mismatches.append("polars Column.validate(DataFrame): %s" % obs["column_type_ok"])
+        oc.sig = "rows|%s|%s|%s" % (vec["backend"], vec["mode"], obs["kind"])
+        return oc
     oc = Outcome()
     runs = [("", obs)] if "kind" in obs else [(m + ": ", obs[m]) for m in ("eager", "lazy") if m in obs]
     inplace = bool(vec.get("opts", {}).get("inplace"))
@@ -43,7 +58,7 @@ def compare(vec: Dict[str, Any], obs: Dict[str, Any]) -> Outcome:
 PROP = Prop(
     id="C04",
     title="Validation never modifies the caller's data unless inplace=True",
-    slices=[slices.SERIES_PARSE, slices.FRAME_PARSE, slices.SERIES, COMPONENT] + slices.FRAME_SLICES,
+    slices=[slices.SERIES_PARSE, slices.FRAME_PARSE, slices.SERIES, COMPONENT, FRAME_ROWS_ALL] + slices.FRAME_SLICES,
     compare=compare,
     rule=("The pipeline specification models aliasing explicitly (Preprocess sets aliased := inplace; every in-place stage "
           "writes through Write); TLC proves NoCallerMutation for every explored run. Each run is replayed with a deep "
